@@ -364,7 +364,7 @@ def run_prog(spec, tier, mg):
         known = common.match_known(common.load_known(PROP), sig)
         src = ("import sys\nimport numpy as np\nimport mygrad as mg\nx = mg.Tensor([1.0, 2.0])\n(x * 3.0).sum().backward()\nc = x.copy(constant=True)\n"
                "print(c.constant, c.grad)\nbad = c.constant and c.grad is not None\nprint('REPRODUCED' if bad else 'NOT-REPRODUCED'); sys.exit(1 if bad else 0)\n")
-        path = common.write_replay(PROP, "copy_constant_true", src)
+        path = common.write_replay(PROP, gradcase._safe("copy_constant_true_" + spec["prog"]), src)
         ok, out = common.run_replay(path, count=known is None)
         if ok:
             if known is None:
